@@ -598,6 +598,14 @@ func main() {
 		var rep struct {
 			Case json.RawMessage `json:"case"`
 		}
+		var at struct {
+			Case struct {
+				At int `json:"queries_issued_only_after_step"`
+			} `json:"case"`
+		}
+		if json.Unmarshal(data, &at) == nil {
+			replayObservedAt = at.Case.At
+		}
 		if strings.Contains(string(data), `"key": "crash:`) {
 			fmt.Println("replay: this violation is a crash of the whole process inside the library (see \"detail\" in the file); re-run the check itself to reproduce it")
 			os.Exit(1)
